@@ -438,7 +438,7 @@ func init() {
 		x := a[0].(iface).v.([]value)
 		insertion(len(x), func(p, q int) bool {
 			return fr.i.concBool(call(fr.i, fr, token.NoPos, a[1], []value{p, q}))
-		}, func(p, q int) { x[p], x[q] = x[q], x[p] })
+		}, func(p, q int) { fr.i.noteWrite(&x[p]); fr.i.noteWrite(&x[q]); x[p], x[q] = x[q], x[p] })
 		return nil
 	}
 	ext("sort.Slice", sortSlice)
@@ -447,14 +447,14 @@ func init() {
 		x := a[0].([]value)
 		insertion(len(x), func(p, q int) bool {
 			return fr.i.concBool(fr.i.symStrBinopOrNative(token.LSS, x[p], x[q]))
-		}, func(p, q int) { x[p], x[q] = x[q], x[p] })
+		}, func(p, q int) { fr.i.noteWrite(&x[p]); fr.i.noteWrite(&x[q]); x[p], x[q] = x[q], x[p] })
 		return nil
 	})
 	ext("sort.Ints", func(fr *frame, a []value) value {
 		x := a[0].([]value)
 		insertion(len(x), func(p, q int) bool {
 			return fr.i.concBool(binop(fr.i, token.LSS, nil, x[p], x[q]))
-		}, func(p, q int) { x[p], x[q] = x[q], x[p] })
+		}, func(p, q int) { fr.i.noteWrite(&x[p]); fr.i.noteWrite(&x[q]); x[p], x[q] = x[q], x[p] })
 		return nil
 	})
 
